@@ -34,12 +34,17 @@ func (s *sliceLexer) Next() (lexer.Token, error) {
 
 var peekTypes = map[byte]lexer.TokenType{'N': -2, 'E': -3, 'X': -4, '$': lexer.EOF}
 
+// usePositiveTypes switches the harness to rune-style (positive) token types, as text/scanner based or custom lexers use.
+func usePositiveTypes() {
+	peekTypes = map[byte]lexer.TokenType{'N': 'N', 'E': 'E', 'X': 1000, '$': lexer.EOF}
+}
+
 func peekLexer(kinds string) (*lexer.PeekingLexer, []lexer.Token) {
 	toks := make([]lexer.Token, len(kinds))
 	for i := 0; i < len(kinds); i++ {
 		toks[i] = lexer.Token{Type: peekTypes[kinds[i]], Value: strconv.Itoa(i + 1), Pos: lexer.Position{Offset: i}}
 	}
-	pl, _ := lexer.Upgrade(&sliceLexer{t: toks}, -3, -4)
+	pl, _ := lexer.Upgrade(&sliceLexer{t: toks}, peekTypes['E'], peekTypes['X'])
 	return pl, toks
 }
 
@@ -49,11 +54,11 @@ func peekPred(name string) func(lexer.Token) bool {
 	set := map[lexer.TokenType]bool{}
 	switch name {
 	case "X":
-		set[-4] = true
+		set[peekTypes['X']] = true
 	case "N":
-		set[-2] = true
+		set[peekTypes['N']] = true
 	case "EX":
-		set[-3], set[-4] = true, true
+		set[peekTypes['E']], set[peekTypes['X']] = true, true
 	}
 	return func(t lexer.Token) bool { return set[t.Type] }
 }
@@ -189,6 +194,9 @@ func replayEdge(f []string) (msg string) {
 
 // peek-replay <edges file>: one "a|b|..." record per line (EDGE prefix stripped)
 func peekReplay(args []string) error {
+	if len(args) > 1 && args[1] == "positive" {
+		usePositiveTypes()
+	}
 	f, err := os.Open(args[0])
 	if err != nil {
 		return err
@@ -224,6 +232,9 @@ func peekRecord(args []string) error {
 	ntraces, _ := strconv.Atoi(args[1])
 	maxlen, _ := strconv.Atoi(args[2])
 	steps, _ := strconv.Atoi(args[3])
+	if seed%2 == 1 {
+		usePositiveTypes() // every other batch of traces uses rune-style token types
+	}
 	rng := rand.New(rand.NewSource(int64(seed)))
 	w := bufio.NewWriter(os.Stdout)
 	defer w.Flush()
